@@ -122,7 +122,7 @@ let () =
   let sp = ref sp_init in
   let pat = ref PubSub and defs = ref [] and tticks = ref 2000 in
   let tnat = ref (nat_of_int 2000) in
-  let params () = { p_T = !tnat; p_defs = (fun _ -> !defs) } in
+  let params () = { p_T = !tnat; p_defs = (fun _ -> !defs); p_recheck = true } in
   let case_no = ref 0 and op_no = ref 0 and ops_total = ref 0 in
   let mm_model = ref 0 and mm_spec = ref 0 in
   let cur_case = Buffer.create 256 and cur_nontrivial = ref false in
